@@ -9,6 +9,11 @@ spec/Discovery.tla.  Binding (real frappy.protocol.discovery.UDPListener on a Fa
                  Gen_Discovery/GLSpec enumerates every datagram class sequence up to Depth with the expected
                  answers; replayed through run() with scripted recvfrom, compared after every datagram, a
                  final discover request proves the loop is still alive.
+  server wiring: spec/DiscoveryServer.tla (which ports are open, which identity is current, restart, shutdown);
+                 Gen_DiscoveryServer enumerates every interface list (tcp/ws x comes up/fails) x boot, restart*,
+                 shutdown; harness/discworld.py runs the real frappy.server.Server (config file, run(), restart(),
+                 shutdown(), real TCPServer/WSServer constructors) on a fake bind layer with the real UDPListener
+                 thread on a threaded fake socket; a broadcast request after every operation shows who answers.
   code -> spec : seeded random descriptions (mixed scripts, escapes, lengths around the limit, real 508) and
                  random datagram byte strings are executed, recorded and validated by Trace_Discovery (TLC),
                  which names the failing clause.
@@ -28,10 +33,15 @@ META = {
             'to the bound x every budget and every datagram class sequence up to the depth bound that TLC emits is '
             'executed on the real UDPListener (FakeUDP socket, real json/utf-8 arithmetic, also at the real 508) and '
             'compared with the outcomes TLC allows; recorded random executions are validated by TLC against '
-            'Trace_Discovery. Exhaustive inside the bound (glyph classes, not code points).',
+            'Trace_Discovery. Exhaustive inside the bound (glyph classes, not code points). Server wiring '
+            '(DiscoveryServer.tla): every list of up to 2 (thorough 3) tcp/ws interfaces that come up or fail x boot, '
+            'restarts, shutdown is run through the real Server.run/restart/shutdown and interface constructors on a fake '
+            'bind layer; after every operation a broadcast request must be answered once per TCP port open now, with '
+            'the identity of now, and not at all after shutdown.',
     'note': 'Trusted: TLC; the alpha/gamma glue in harness/props/c19.py (FakeUDP, glyph classifier - calibrated against '
             'the implementation on every run, strict JSON/UTF-8 verdicts by the Python standard decoders). Outside the '
-            'alphabet: lone surrogates in descriptions, sendto/recvfrom OS errors, real sockets.',
+            'alphabet: lone surrogates in descriptions, sendto/recvfrom OS errors, real sockets, interfaces that come up '
+            'after the 12 s start time-out or die while the node keeps serving.',
     'tech': 'TLA+ spec (Discovery.tla) + TLC model checking; spec->code replay of all TLC behaviours; '
             'code->spec TLC trace validation',
     'ref': 'DESIGN.md section 5 C19',
@@ -885,7 +895,9 @@ def run(chk):
                 'budget, executed on the real UDPListener (port lists with a 5 digit / 1 digit widest port) and '
                 'compared with the outcomes TLC allows, plus random concrete descriptions validated by '
                 'Trace_Discovery; loop: every datagram class sequence up to the depth bound x 0..2 TCP ports replayed '
-                'through run() and compared per datagram, plus random byte strings validated by Trace_Discovery. '
+                'through run() and compared per datagram, plus random byte strings validated by Trace_Discovery; '
+                'server: every interface list (tcp/ws x up/fail, main interface bare / from the command line) x '
+                'boot, restart*, shutdown on the real Server, validated by Trace_DiscoveryServer. '
                 'distinct = glyph sequence / class sequence / random case; non-trivial = at least one message or '
                 'datagram was processed') % ((5, 4) if quick else (8, 6))
     mode_ascii = calibrate()
